@@ -100,6 +100,52 @@ class TorchProxy:
         return getattr(self._torch, name)
 
 
+class OpTorchProxy:
+    """Stands in for the name `torch` inside inference/mcmc/operator.py: passes every call through
+    and records the uniform / integer draws of the current operator step; in `force` mode (the
+    kernel probe, run on a stand-in operator) it replays a given list of draws instead."""
+
+    def __init__(self, sim):
+        import torch
+
+        object.__setattr__(self, "_sim", sim)
+        object.__setattr__(self, "_torch", torch)
+        object.__setattr__(self, "forced", None)
+
+    def rand(self, *a, **k):
+        if self.forced is not None:
+            kind, v = self.forced.pop(0)
+            if kind != "rand":
+                raise _ProbeMismatch()
+            return self._torch.tensor([v], dtype=self._torch.float64)
+        r = self._torch.rand(*a, **k)
+        if r.numel() == 1:
+            self._sim.cur_draws.append(("rand", float(r.reshape(-1)[0])))
+        else:
+            self._sim.cur_draws.append(("rand*", None))
+        return r
+
+    def randint(self, *a, **k):
+        if self.forced is not None:
+            kind, v = self.forced.pop(0)
+            if kind != "randint":
+                raise _ProbeMismatch()
+            return self._torch.tensor([v])
+        r = self._torch.randint(*a, **k)
+        self._sim.cur_draws.append(("randint", int(r.reshape(-1)[0])) if r.numel() == 1 else ("randint*", None))
+        return r
+
+    def __getattr__(self, name):
+        return getattr(self._torch, name)
+
+    def __setattr__(self, name, value):
+        object.__setattr__(self, name, value)
+
+
+class _ProbeMismatch(Exception):
+    pass
+
+
 class IntegratorProxy:
     """Forwards everything to the real integrator, records the returned momentum."""
 
@@ -184,6 +230,9 @@ class McmcSim:
         self.lp_cur = None
         self.cur_p0 = None
         self.cur_p1 = None
+        self.cur_draws = []
+        self.op_torch = None
+        self.law_checks = {}
         self.policy = scenario["policy"]
         self.logged_expect = {}
         self.da_ref = {}
@@ -301,6 +350,7 @@ class McmcSim:
         rec.s = self.snapshot()
         rec.lp_s = self.lp_cur
         self.cur_p0 = self.cur_p1 = None
+        self.cur_draws = []
         self._tuning_all = [(o, tuning_value(o)) for o in self.operators_once()]
         self.log.add("choose", t, idx, seed)
         return torch.tensor(idx)
@@ -318,6 +368,7 @@ class McmcSim:
             rec.hr = float(hr)
             rec.s2 = self.snapshot()
             rec.p0, rec.p1 = self.cur_p0, self.cur_p1
+            rec.notes["draws"] = list(self.cur_draws)
             self.log.add("step", rec.t, op.id, rec.hr, sorted((k2, tensor_digest(v)) for k2, v in rec.s2.items()))
             return hr
 
@@ -340,10 +391,12 @@ class McmcSim:
         ids = [i for par in op.parameters for i in base_ids_of(par)]
         try:
             if k == "ScalerOperator":
+                self._kernel_law(rec, op, "scale")
                 if any(type(par).__name__ == "TransformedParameter" for par in op.parameters):
                     return self._scaler_derived(rec, op)
                 return refprop.scaler(ids, rec.tuning_before, rec.s, rec.s2)
             if k == "SlidingWindowOperator":
+                self._kernel_law(rec, op, "shift")
                 return refprop.sliding(ids, rec.tuning_before, rec.s, rec.s2)
             if k == "DirichletOperator":
                 return refprop.dirichlet(ids, rec.tuning_before, rec.s, rec.s2)
@@ -358,6 +411,101 @@ class McmcSim:
             rec.hr_error = str(e)
             return None, {"proposal_error": str(e)}
         return None, {"unknown_operator": k}
+
+    def _kernel_law(self, rec, op, what):
+        """The closed-form Hastings ratios of the scaler (-log f, row form (d-2) log f) and of the
+        sliding window (0) presuppose the *law* of the random factor / shift: uniform on [a, 1/a],
+        symmetric about 0.  The law is measured here instead of assumed: the operator's own
+        `_step` is run on a stand-in (a shallow copy of the operator over detached copies of its
+        parameter tensors, no model attached) with the uniform draw of the real step replaced by
+        chosen values, which gives the map u -> move; its density is 1/|d move / du|, and the log
+        ratio of the density at the reverse move to the density at the forward move must be what
+        the closed form presupposes (0).  Abstains unless the step consumed exactly one uniform."""
+        import copy
+
+        import torch
+
+        n = self.law_checks.get(id(op), 0)
+        self.law_checks[id(op)] = n + 1
+        if not (n < 3 or n % 8 == 0) or self.op_torch is None:
+            return
+        draws = rec.notes.get("draws") or []
+        if [d[0] for d in draws].count("rand") != 1 or any(d[0].endswith("*") for d in draws):
+            self.probe("kernel_law_abstained")
+            return
+        from torchtree.core.parameter import Parameter
+
+        def run(u):
+            stand = copy.copy(op)
+            base = []
+            for par in op.parameters:
+                t = rec_tensor(par)
+                base.append(t)
+            stand.parameters = [Parameter(None, t.clone()) for t in base]
+            saved = getattr(op, "_scaler", None), getattr(op, "_width", None)
+            if what == "scale":
+                stand._scaler = rec.tuning_before
+            else:
+                stand._width = rec.tuning_before
+            self.op_torch.forced = [(k, (u if k == "rand" else v)) for k, v in draws]
+            try:
+                stand._step()
+            finally:
+                self.op_torch.forced = None
+            for t0, p1 in zip(base, stand.parameters):
+                a, b = t0.reshape(-1).to(torch.float64), p1.tensor.detach().reshape(-1).to(torch.float64)
+                idx = torch.nonzero(a != b).reshape(-1)
+                if len(idx):
+                    i = int(idx[0])
+                    return float(b[i] / a[i]) if what == "scale" else float(b[i] - a[i])
+            return 1.0 if what == "scale" else 0.0
+
+        def rec_tensor(par):
+            # values the parameter had before the real proposal
+            from checks.c11 import base_ids_of
+
+            ids = base_ids_of(par)
+            if type(par).__name__ == "Parameter" and len(ids) == 1 and ids[0] in rec.s:
+                return rec.s[ids[0]].detach().clone()
+            return None
+
+        if any(rec_tensor(par) is None for par in op.parameters):
+            return  # derived / view parameters: the closed forms for them are checked on the derived values
+        u0 = [v for k, v in draws if k == "rand"][0]
+        try:
+            m0 = run(u0)
+            lo, hi = run(0.0), run(1.0 - 1e-12)
+            target = (1.0 / m0) if what == "scale" else -m0
+            if not (min(lo, hi) <= target <= max(lo, hi)):
+                raise refprop.ProposalError("%s kernel: the reverse move (%r) is outside the range of the kernel [%r, %r] at this tuning value: the proposal is not reversible" % (what, target, lo, hi))
+            a, b = (0.0, 1.0 - 1e-12)
+            inc = hi > lo
+            for _ in range(60):
+                mid = 0.5 * (a + b)
+                v = run(mid)
+                if (v < target) == inc:
+                    a = mid
+                else:
+                    b = mid
+            u1 = 0.5 * (a + b)
+            h = 1e-5
+
+            def slope(u):
+                x0, x1 = max(0.0, u - h), min(1.0 - 1e-12, u + h)
+                return (run(x1) - run(x0)) / (x1 - x0)
+
+            s0, s1 = abs(slope(u0)), abs(slope(u1))
+        except _ProbeMismatch:
+            self.probe("kernel_law_abstained")
+            return
+        if s0 <= 0 or s1 <= 0 or not math.isfinite(s0) or not math.isfinite(s1):
+            self.probe("kernel_law_abstained")
+            return
+        self.probe("kernel_law_checked:" + what)
+        log_ratio = math.log(s0) - math.log(s1)  # log p(reverse move) - log p(forward move), p = 1/|slope|
+        if abs(log_ratio) > 1e-3:
+            raise refprop.ProposalError("%s kernel: the density of the random %s is not the one its Hastings ratio presupposes: log density(reverse %s %.6g) - log density(forward %s %.6g) = %.4g, expected 0 "
+                                        "(measured on the operator's own sampling map u -> move at tuning value %r)" % (what, "factor" if what == "scale" else "shift", what, target, what, m0, log_ratio, rec.tuning_before))
 
     def _leapfrog_reference(self, rec, op):
         """K(r) - K(r') is the log ratio of reverse to forward proposal densities only if (x', -r')
@@ -851,6 +999,10 @@ def execute(scenario, log=None):
         sim = McmcSim(spec, dic, mcmc, scenario, log, fs)
         with Patch() as patch:
             patch.set(mcmc_mod, "torch", TorchProxy(sim))
+            import torchtree.inference.mcmc.operator as operator_mod
+
+            sim.op_torch = OpTorchProxy(sim)
+            patch.set(operator_mod, "torch", sim.op_torch)
             patch.set(mcmc_mod, "SignalHandler", SimSignalHandler)
             patch.set(mcmc_mod, "_VERIF_TRACE", sim.on_trace)
             wrapped = set()
